@@ -16,6 +16,7 @@ import RdfModel.Driver.TtlDoc
 import RdfModel.Driver.Xsd
 import RdfModel.Driver.IRI
 import RdfModel.Driver.JsonLd
+import RdfModel.Driver.RdfXml
 open RdfModel
 
 def dispatch (line : String) : String :=
@@ -38,6 +39,7 @@ def dispatch (line : String) : String :=
         else if comp = "bn" then Driver.BlankNodes.handle op args
         else if comp = "nqo" then Driver.NQO.handle op args
         else if comp = "iri" then Driver.IRI.handle op args
+        else if comp = "rx" then Driver.RdfXml.handle op args
         else none
       r.getD "bad-op"
     | _ => "bad-op"
